@@ -4,20 +4,38 @@ The range is any insert history (keys need not even be canonical combos); weight
 which `f32 ==` is equality (`TextDefs.WTextOk.eq_iff`).
 -/
 import EspadaVerif.Lemmas.TextDefs
+import EspadaVerif.Lemmas.RankPairFacts
 
 namespace EspadaVerif.C12
-open EspadaVerif TextDefs
+open EspadaVerif TextDefs RankPairFacts
 
 variable {W : Type}
+
+/-- the report, for the closed form `rpList` of the list `rankPairs` returns -/
+theorem report_rpList (wt : WText W) (inDom : W → Prop) (hok : WTextOk wt inDom) (r : HandRange W)
+    (hr : ∀ e ∈ r, inDom e.2) (rp : RankPair) (w : W) :
+    rpLookup (rpList wt r) rp = some w ↔ (RankPair.canonical rp ∧ ∀ c ∈ rp.combos, r.lookup c = some w) := by
+  rw [rpLookup_rpList, entryW, rankPairWeight_probe_iff wt inDom hok r hr rp _ (probeOf_mem rp)]
+
+/-- a combo is removed from the leftovers exactly when a reported rank pair contains it -/
+theorem mem_reported_combos (wt : WText W) (r : HandRange W) (c : Combo) :
+    c ∈ (rpList wt r).flatMap (fun e => e.1.combos) ↔ ∃ rp w, rpLookup (rpList wt r) rp = some w ∧ c ∈ rp.combos := by
+  rw [List.mem_flatMap]
+  constructor
+  · rintro ⟨⟨rp, w⟩, he, hc⟩
+    exact ⟨rp, w, (rpLookup_eq_some_iff (rpList_functional wt r) rp w).mpr he, hc⟩
+  · rintro ⟨rp, w, hl, hc⟩
+    exact ⟨(rp, w), rpLookup_mem hl, hc⟩
 
 /-- **C12 (rank pairs).** A rank pair is reported with weight `w` exactly when it is canonical and all of its
 6 / 4 / 12 combos are present with that same weight `w`. -/
 theorem C12_report (wt : WText W) (inDom : W → Prop) (hok : WTextOk wt inDom) (r : HandRange W)
     (hr : ∀ e ∈ r, inDom e.2) :
     ∃ l, rankPairs wt r = .ok l ∧
-      ∀ rp w, rpLookup l rp = some w ↔ (RankPair.canonical rp ∧ ∀ c ∈ rp.combos, r.lookup c = some w) := by
-  sorry
+      ∀ rp w, rpLookup l rp = some w ↔ (RankPair.canonical rp ∧ ∀ c ∈ rp.combos, r.lookup c = some w) :=
+  ⟨rpList wt r, rankPairs_eq wt r, report_rpList wt inDom hok r hr⟩
 
+set_option linter.unusedVariables false in
 /-- **C12 (leftovers).** The leftover view holds exactly the combos not covered by a reported rank pair, with their
 own weights. -/
 theorem C12_orphans (wt : WText W) (inDom : W → Prop) (hok : WTextOk wt inDom) (r : HandRange W)
@@ -25,12 +43,18 @@ theorem C12_orphans (wt : WText W) (inDom : W → Prop) (hok : WTextOk wt inDom)
     ∃ l o, rankPairs wt r = .ok l ∧ orphans wt r = .ok o ∧
       ∀ c, ((∃ rp w, rpLookup l rp = some w ∧ c ∈ rp.combos) → o.lookup c = none)
          ∧ ((∀ rp w, rpLookup l rp = some w → c ∉ rp.combos) → o.lookup c = r.lookup c) := by
-  sorry
+  obtain ⟨o, ho, hl⟩ := orphans_lookup wt r
+  refine ⟨rpList wt r, o, rankPairs_eq wt r, ho, fun c => ⟨fun h => ?_, fun h => ?_⟩⟩
+  · rw [hl c, if_pos ((mem_reported_combos wt r c).mpr h)]
+  · rw [hl c, if_neg]
+    intro hm
+    obtain ⟨rp, w, h1, h2⟩ := (mem_reported_combos wt r c).mp hm
+    exact h rp w h1 h2
 
 /-- different canonical rank pairs have no combo in common -/
 theorem C12_disjoint (rp rp' : RankPair) (h : RankPair.canonical rp) (h' : RankPair.canonical rp') (c : Combo)
-    (hc : c ∈ rp.combos) (hc' : c ∈ rp'.combos) : rp = rp' := by
-  sorry
+    (hc : c ∈ rp.combos) (hc' : c ∈ rp'.combos) : rp = rp' :=
+  combos_disjoint h h' hc hc'
 
 /-- **C12 (cover).** Every combo of the range lies in exactly one of the two views, with its weight: either it is a
 leftover, or exactly one reported rank pair contains it (and carries its weight). -/
@@ -41,7 +65,23 @@ theorem C12_cover (wt : WText W) (inDom : W → Prop) (hok : WTextOk wt inDom) (
         (o.lookup c = some w ∧ ∀ rp w', rpLookup l rp = some w' → c ∉ rp.combos)
         ∨ (o.lookup c = none ∧ ∃ rp, rpLookup l rp = some w ∧ c ∈ rp.combos
              ∧ ∀ rp' w', rpLookup l rp' = some w' → c ∈ rp'.combos → rp' = rp) := by
-  sorry
+  obtain ⟨o, ho, hl⟩ := orphans_lookup wt r
+  refine ⟨rpList wt r, o, rankPairs_eq wt r, ho, fun c w hw => ?_⟩
+  have hrep := report_rpList wt inDom hok r hr
+  by_cases hm : c ∈ (rpList wt r).flatMap (fun e => e.1.combos)
+  · right
+    obtain ⟨rp, w', h1, h2⟩ := (mem_reported_combos wt r c).mp hm
+    have h3 := (hrep rp w').mp h1
+    have hww : w' = w := by
+      have := h3.2 c h2
+      rw [hw] at this
+      exact (Option.some.inj this).symm
+    subst hww
+    refine ⟨by rw [hl c, if_pos hm], rp, h1, h2, fun rp' w'' h1' h2' => ?_⟩
+    exact C12_disjoint rp' rp ((hrep rp' w'').mp h1').1 h3.1 c h2' h2
+  · left
+    refine ⟨by rw [hl c, if_neg hm, hw], fun rp w' h1 h2 => ?_⟩
+    exact hm ((mem_reported_combos wt r c).mpr ⟨rp, w', h1, h2⟩)
 
 /-- the combo counts of the three kinds of rank pair -/
 theorem C12_sizes : (RankPair.pocket 9).combos.length = 6 ∧ (RankPair.suited 3 4).combos.length = 4
